@@ -401,7 +401,7 @@ func (p *Pool) runCase(w *worker, req *Req) (*worker, *Result) {
 		// the case goes on without the call that killed the worker; when the
 		// guarded call of a wiring did it, the rest of the walk would only
 		// run into the same thing
-		if attempts >= 6 || strings.HasPrefix(cur, "probe/") {
+		if attempts >= 6 || req.NoRetry || strings.HasPrefix(cur, "probe/") {
 			return w, res
 		}
 	}
